@@ -42,6 +42,13 @@ def schedules(tier):
         out.append({"name": "B%d" % k, "strays": strays, "reply": round(max(1.5, 0.6 * k + 0.3), 3), "expect": "timeout"})
         fast = [round(0.12 * i, 3) for i in range(1, min(k, 5) + 1)]
         out.append({"name": "C%d" % k, "strays": fast, "reply": 0.75, "expect": "value"})
+    # histories on ONE session: a request that fails (timeout after a stray, or a decode error) must not
+    # change how long the next request waits
+    out.append({"name": "H-timeout-then-late-reply", "seq": [
+        {"name": "H1a", "strays": [0.6], "reply": None, "expect": "timeout"},
+        {"name": "H1b", "strays": [], "reply": 0.75, "expect": "value"},
+        {"name": "H1c", "strays": [0.3, 0.6], "reply": None, "expect": "timeout"},
+        {"name": "H1d", "strays": [0.2], "reply": 0.8, "expect": "value"}]})
     return out
 
 
@@ -112,7 +119,13 @@ def worker(job):
         return d
     drv = mk()
     serial = 1000
+    flat = []
     for sch in job["schedules"]:
+        if "seq" in sch:
+            flat += [dict(p, keep_session=True, history=sch["name"]) for p in sch["seq"]]
+        else:
+            flat.append(sch)
+    for sch in flat:
         prog.mark({"cfg": cfg.key(), "schedule": sch["name"]})
         serial += 1
         out, dur, drift, rel = run_case(cfg, agent, drv, sch, serial)
@@ -132,6 +145,15 @@ def worker(job):
                 time.sleep(T * 2)
                 drv.close()
                 drv = mk()
+                if sch.get("keep_session"):
+                    # replay the whole history up to this step on the fresh session
+                    for prev in flat:
+                        if prev.get("history") == sch["history"]:
+                            if prev is sch:
+                                break
+                            serial += 1
+                            run_case(cfg, agent, drv, prev, serial)
+                            agent.wait_idle(timeout=5)
                 serial += 1
                 o2, d2, dr2, rel2 = run_case(cfg, agent, drv, sch, serial)
                 v2 = judge(sch, o2, d2, serial)
@@ -145,7 +167,7 @@ def worker(job):
                     cfg.key(), sch["name"], sch["strays"], sch["reply"], v[1], notes), "cfgkey": cfg.key(), "schedule": sch})
             else:
                 res["inconclusive"].append("[%s] %s: %s - not confirmed 3/3 (%s)" % (cfg.key(), sch["name"], v[1][:80], notes))
-        if out[0] == "exc":
+        if out[0] == "exc" and not sch.get("keep_session"):
             time.sleep(T * 2.2)  # let the rest of the schedule drain, then start clean
             drv.close()
             drv = mk()
